@@ -46,6 +46,12 @@ func readTlvStream(
 				break
 			}
 
+			// The length comes from the peer: a block that cannot fit a packet is
+			// invalid (and must not overflow the size computed below)
+			if len > defn.MaxNDNPacketSize {
+				return errors.New("received TLV block larger than the maximum packet size")
+			}
+
 			tlvSize := typ.EncodingLength() + len.EncodingLength() + int(len)
 
 			if recvOff-tlvOff >= tlvSize {
